@@ -29,7 +29,8 @@ CHECKS = [
     dict(id="C02",
          text="Histories of Puts generated from Gen_Cafs.tla (key functional in the content, duplicate flag, write-once blobs "
               "checked by TLC) are replayed on pkg/cafs; keys are compared with the abstract keys of the specification "
-              "concretized by the tree layout and recomputed by an independent BLAKE2b tree implementation",
+              "concretized by the tree layout and recomputed by an independent BLAKE2b tree implementation; instances with a key "
+              "prefix sharing one backend keep their duplicate flag and blobs per namespace",
          design_ref="§3 C02",
          note="Trusted: Python hashlib BLAKE2b (primitive), TLC, refinement map. The layout (node offsets, last-node flag, root "
               "over leaf digests) comes from Cafs.tla",
